@@ -430,7 +430,24 @@ class Interp:
             return self.global_lookup(obj, name)
         return self.models.value_getattr(self, obj, name)
 
+    HEAP_FIELDS = {"_obsolete": ("obs", BOOL), "_obsolete_warned": ("warned", BOOL), "_predecessor": ("pred", V)}
+
+    def heap_field(self, name, sort):
+        if name not in self.ctx.heap:
+            self.ctx.heap[name] = z3.Const(name + "0", z3.ArraySort(V, sort))
+        return self.ctx.heap[name]
+
     def instance_getattr(self, obj, name):
+        href = getattr(obj, "href", None)
+        if href is not None and name in self.HEAP_FIELDS:
+            hn, srt = self.HEAP_FIELDS[name]
+            val = self.heap_field(hn, srt)[href]
+            if name == "_predecessor":
+                ref = Instance(self.ctx, obj.cls, base=None)
+                ref.href = val
+                ref.maybe_none = True
+                return ref
+            return val
         found, cv = self.class_attr(obj.cls, name)
         if found and isinstance(cv, PropertyObj):
             return self.call(cv.fget, [obj], {})
@@ -453,6 +470,16 @@ class Interp:
         raise PyRaise("AttributeError", name)
 
     def setattr(self, obj, name, value):
+        href = getattr(obj, "href", None)
+        if href is not None and name in self.HEAP_FIELDS:
+            hn, srt = self.HEAP_FIELDS[name]
+            arr = self.heap_field(hn, srt)
+            if srt == BOOL:
+                vv = value if is_z3(value) else z3.BoolVal(bool(value))
+            else:
+                vv = self.models.to_v(self, value)
+            self.ctx.heap[hn] = z3.Store(arr, href, vv)
+            return None
         if isinstance(obj, Instance):
             found, cv = self.class_attr(obj.cls, name)
             if found and isinstance(cv, PropertyObj) and cv.fset is not None:
